@@ -55,6 +55,18 @@ HERE = os.path.dirname(os.path.abspath(__file__))
 STANDIN = os.path.join(HERE, "eyaml_standin.py")
 _ENV = {}
 _COUNTER = [0]
+# scratch space: see harness/c17.py
+_OWNER = os.getpid()
+TOP = "/tmp/save_%d" % _OWNER
+
+
+def _cleanup():
+    if os.getpid() == _OWNER:
+        shutil.rmtree(TOP, ignore_errors=True)
+
+
+import atexit  # noqa: E402
+atexit.register(_cleanup)
 
 KEYS = ["a", "b", "password", "db_pass", "profile::db::secret", "dash-key", "under_score", "a.b", "with space",
         "x/y", "k9", "Z", "nested", "list", "more", "0x", "q[0]"]
@@ -69,10 +81,8 @@ def init_worker():
     import yamlpath.eyaml.eyamlprocessor as EP
     from yamlpath.common import Parsers
     from ruamel.yaml.scalarstring import FoldedScalarString
-    root = "/tmp/save_%d" % os.getpid()
+    root = os.path.join(TOP, "w%d" % os.getpid())
     os.makedirs(root, exist_ok=True)
-    import atexit
-    atexit.register(lambda: shutil.rmtree(root, ignore_errors=True))
     kd = os.path.join(root, "keys")
     os.makedirs(kd, exist_ok=True)
     for name in ("old", "new"):
